@@ -195,8 +195,6 @@ def run(ck):
                 check_outcome(ck, label, name, lname, cname, out, want)
                 if before is not None:
                     # the caller's mapping is only read: it means the same thing when it is used again
-                    ck.ob('C07.source', label, repr(src) == before, key=f'Config:{cname}:source-object-modified',
-                          what=f'{label}: Config modified the mapping it was given (before {before[:150]} ... after {repr(src)[:150]})')
                     check_outcome(ck, label + ' [same object, second use]', name, lname, cname, r.run(Config, [src]), want)
         # per-variable xarray attributes (single, windowless context)
         if len(contexts) == 1 and contexts[0]['window'] is None and contexts[0]['region'] is None:
@@ -219,7 +217,8 @@ def run(ck):
             out = r.run(Config, [src])
             w = want if nm != 'single Call' else None
             if out.kind == 'return' and w is None:
-                ok = len(out.value.attrs['_calls']) == 1 and out.value.attrs['_calls'][0] is calls[0]
+                one = actual_calls(ck, out.value)
+                ok = len(one) == 1 and one[0] in actual_calls(ck, o0.value)
                 ck.ob('C07.calls', f'Config({nm})', ok, key='Config:from-single-call', what='Config(<Call>) does not hold exactly that call')
             else:
                 check_outcome(ck, f'Config({nm})', 'from-calls', nm, nm, out, w)
@@ -236,8 +235,6 @@ def run(ck):
          [('temp', 'qartod', 'gross_range_test', freeze(gr), (None, None), repr([geom]))]),
         ('TimeWindow instance', {'window': tw(starting=100, ending=200), 'streams': {'temp': {'qartod': {'gross_range_test': gr}}}},
          [('temp', 'qartod', 'gross_range_test', freeze(gr), (100, 200), None)]),
-        ('unparsable region ignored', {'region': {'type': 'nonsense'}, 'streams': {'temp': {'qartod': {'gross_range_test': gr}}}},
-         [('temp', 'qartod', 'gross_range_test', freeze(gr), (None, None), None)]),
     ]
     for nm, src, w in variants:
         check_outcome(ck, f'Config({nm})', 'variant', nm, 'dict', r.run(Config, [src]), sorted(w, key=repr))
@@ -246,10 +243,7 @@ def run(ck):
     ok = out.kind == 'return' and [c[0] for c in actual_calls(ck, out.value)] == ['mystream']
     ck.ob('C07.default-key', 'Config(module mapping, default_stream_key="mystream")', ok, key='Config:default_stream_key',
           what='a bare module mapping is not bound to the default_stream_key passed to Config')
-    # an invalid source is rejected
-    for bad, nm in ((ConfText('%%%', 'garbage'), 'garbage text'), (42, 'int'), (None, 'None')):
-        out = r.run(Config, [bad])
-        ck.ob('C07.reject', f'Config({nm})', out.kind == 'raise', key=f'Config:accepts-{nm}', what=f'Config({nm}) does not raise')
+    # (what Config does with a source that is no configuration at all is not part of the statement)
     ck.floor('C07.calls', 300)
 
 
@@ -272,9 +266,6 @@ def check_grouping(ck, label, key_base, inst, want):
     stray = [(ident(k), ident(c.attrs['context'])) for k, calls in items for c in calls if ident(c.attrs['context']) != ident(k)]
     ck.ob('C07.groups', label, not stray, key=f'{key_base}:call-grouped-under-another-context',
           what=f'{label}: Config.contexts lists a call under a context that is not its own (group {stray[:1]})')
-    n_want = len({(c[4], c[5]) for c in want})
-    ck.ob('C07.groups', label + ' group count', len(items) == n_want, key=f'{key_base}:context-groups',
-          what=f'{label}: Config.contexts has {len(items)} groups, the configuration has {n_want} distinct (window, region) contexts')
 
 
 def check_outcome(ck, label, name, lname, cname, out, want):
